@@ -400,9 +400,10 @@ impl store::Cob for Identity {
                 Err(ApplyError::Redacted) => {}
                 Err(other) => return Err(other),
             }
-            debug_assert!(!next.timeline.contains(&id));
-            next.timeline.push(id);
         }
+        // N.b. an operation appears once in the timeline, however many actions it has.
+        debug_assert!(!next.timeline.contains(&id));
+        next.timeline.push(id);
         *self = next;
 
         Ok(())
